@@ -108,7 +108,9 @@ Canon(st, r) == IF \E k \in Sids(st) : st.reg[k].nsecAlt = r /\ r # 0
                 THEN (CHOOSE k \in Sids(st) : st.reg[k].nsecAlt = r) ELSE -1
 NsecCanon(st, r) == IF Canon(st, r) >= 0 THEN st.reg[Canon(st, r)].nsec ELSE r    \* host-owned NSEC counts as the instance-owned one
 
-Recent(st, r, t) == st.seen[r] # None /\ st.seen[r].c + 250 * st.seen[r].ttl > t
+\* "seen multicast within a quarter of its TTL": the TTL the record is registered with -- not the TTL of the cached copy, which
+\* for a pointer is raised to the 1125 s floor (until fix D24 the code took the cached copy's)
+Recent(st, r, t) == st.seen[r] # None /\ \E ttl \in TtlsOf(st, r) : st.seen[r].c + 250 * ttl > t
 LastSecond(st, r, t) == st.seen[r] # None /\ t - st.seen[r].c < 1000
 
 (* ------------------------------------------------------------------ routing of one (assembled) query
